@@ -31,7 +31,15 @@ func ValidateWithConfiguration(profileText string, jsonldText string, debug bool
 	return ValidateCompiledWithConfiguration(compiledRego, jsonldText, debug, eventChan, validationConfig, reportConfig)
 }
 
-func ValidateCompiledWithConfiguration(compiledRegoPtr *rego.PreparedEvalQuery, jsonldText string, debug bool, eventChan *chan e.Event, validationConfig c.ValidationConfiguration, reportConfig c.ReportConfiguration) (string, error) {
+func ValidateCompiledWithConfiguration(compiledRegoPtr *rego.PreparedEvalQuery, jsonldText string, debug bool, eventChan *chan e.Event, validationConfig c.ValidationConfiguration, reportConfig c.ReportConfiguration) (report string, err error) {
+	defer func() {
+		// a panic can only come from one of the stages below, that is, before the channel has been closed
+		if r := recover(); r != nil {
+			CloseEventChan(eventChan)
+			report, err = "", panicAsError(r)
+		}
+	}()
+
 	compiledRego := *compiledRegoPtr
 
 	// Normalize input
@@ -51,7 +59,7 @@ func ValidateCompiledWithConfiguration(compiledRegoPtr *rego.PreparedEvalQuery, 
 	}
 
 	// Build report
-	report, err := processResult(validationResult, eventChan, validationConfig, reportConfig)
+	report, err = processResult(validationResult, eventChan, validationConfig, reportConfig)
 
 	if err != nil {
 		CloseEventChan(eventChan)
